@@ -125,6 +125,7 @@ class Program:
         self.file_digests: Dict[str, str] = {}
         self._load(overlay or {})
         self._index()
+        self._canonicalise_calls()
 
     # ------------------------------------------------------------------ loading
     def _load(self, overlay: Dict[str, str]):
@@ -246,6 +247,37 @@ class Program:
         if module:
             parts = parts + module.split(".")
         return ".".join(parts)
+
+    # ------------------------------------------------------------------ canonical call form
+    def _canonicalise_calls(self):
+        """Calls to module-level package functions are rewritten (in the parsed trees only) so that
+        every argument that can be positional is positional, in parameter order: f(a, y=c, x=b) and
+        f(a, b, c) become the same tree.  Rules therefore never depend on how a call site happened
+        to spell its arguments."""
+        for m in self.modules.values():
+            for node in ast.walk(m.tree):
+                if not isinstance(node, ast.Call) or any(isinstance(a, ast.Starred) for a in node.args) or any(k.arg is None for k in node.keywords):
+                    continue
+                q = self.resolve_expr(m, node.func)
+                f = self.functions.get(q) if q else None
+                if f is None or f.cls is not None or f.parent is not None or not isinstance(f.node, (ast.FunctionDef, ast.AsyncFunctionDef)):
+                    continue
+                a = f.node.args
+                if a.posonlyargs or a.vararg or a.kwarg:
+                    continue
+                names = [x.arg for x in a.args]
+                if len(node.args) > len(names):
+                    continue
+                kw = {k.arg: k for k in node.keywords}
+                if not set(kw) <= set(names) | {x.arg for x in a.kwonlyargs}:
+                    continue
+                new_args = list(node.args)
+                i = len(new_args)
+                while i < len(names) and names[i] in kw:
+                    new_args.append(kw.pop(names[i]).value)
+                    i += 1
+                node.args = new_args
+                node.keywords = [k for k in node.keywords if k.arg in kw]
 
     # ------------------------------------------------------------------ resolution
     def resolve_qualified(self, qn: str, _seen=None) -> str:
